@@ -32,7 +32,11 @@ def check(ctx):
         close = None
         for c, v, _ in p.conds:
             if call_is(c, 'ISCLOSE') and len(c[2]) == 2 and c[2][1] == ZERO:
-                if gross_sum(c[2][0]):
+                if gross_sum(c[2][0]) and c[3]:
+                    ctx.violation('C11.S1', 'the "weights ~ 0" shortcut uses the default tolerance (only a genuinely zero vector is left unscaled)', fn.site(),
+                                  'tolerance changed: %s' % fmt(c)[-60:], key='C11.S1|tolerance')
+                    close = 'bad'
+                elif gross_sum(c[2][0]):
                     close = v
                 else:
                     ctx.violation('C11.S1', 'the "weights ~ 0" shortcut tests the gross exposure sum(|w|)', fn.site(),
@@ -138,8 +142,10 @@ def check(ctx):
         want = {'ok:gross_leverage'} if valid else {'raise:ValueError'}
         ctx.require(outs == want, 'C11.S3', 'a gross leverage of %s is %s' % (val_, 'accepted unchanged' if valid else 'rejected with ValueError'), fn.site(), sorted(outs),
                     key='C11.S3|leverage|%s' % val_)
-    from . import c05
+    from . import c05, c06, c08
     ctx.sub(c05.s4_fee_models)
+    ctx.sub(c08.sizer_selection)       # the sizer is built with the caller's leverage, unmodified
+    ctx.sub(c06.converter)             # an unavailable price stays NaN (no back-fill), so it can be rejected
     ps = summarise(ctx, CN + '.__init__', policy=no_inline)
     for p in normal(ps):
         w = heap_writes(p, 'gross_leverage')
